@@ -4,6 +4,7 @@
 -/
 import SifVerif.Proofs.Readback
 import SifVerif.Props.C08
+import SifVerif.Proofs.CleanHistory
 namespace Sif.C01
 
 variable (sha : Bytes → Bytes) (ph : Bytes → Option Bytes)
@@ -81,6 +82,32 @@ theorem C01_create (be : Backend) (co : CreateOpts) (hcap : 0 ≤ co.capacity) (
   intro j hj
   obtain ⟨d, hd, _, hid, hc, offU, calls, hw⟩ := h4 j hj
   exact ⟨d, hd, hid, hc, recorded_of_write sha offU _ _ _ d calls hw⟩
+
+/-- **any number of objects, added at any point of any history**: from an accepted creation
+    (options representable, capacity positive) through any history of operations with representable
+    inputs and no store failure, an `AddObject` that is then accepted returns its object unchanged —
+    content, attributes, modification time.  The well-formedness and placement `C01_add` asks for are
+    an invariant of such histories (`C09Inv_history`), not a hypothesis. -/
+theorem C01_add_after_history (be : Backend) (co : CreateOpts) (hin : co.InRange) (hcap : 0 < co.capacity)
+    (hdoff : 128 ≤ co.doff) (h : (createContainerPlan sha ph be co).2.2 = .ok)
+    (ops : List (Op × Int)) (di : DI) (t : TOpt) (now : Int) :
+    ∃ st0, (emptyStore be).calls (createContainerPlan sha ph be co).1 = some st0 ∧
+      let s0 : Img := { (createContainerPlan sha ph be co).2.1 with st := st0 }
+      ((∀ k op now, ops[k]? = some (op, now) → Op.InRange (runOps sha ph s0 (ops.take k)) op now) →
+       (∀ k op now, ops[k]? = some (op, now) →
+          (step sha ph (runOps sha ph s0 (ops.take k)) op now).2 ≠ .err .io) →
+       (step sha ph (runOps sha ph s0 ops) (.add di t) now).2 = .ok →
+       ∃ d, (step sha ph (runOps sha ph s0 ops) (.add di t) now).1.rds[findFreeSlot (runOps sha ph s0 ops).rds]? = some d ∧
+         d.id = findFreeSlot (runOps sha ph s0 ops).rds + 1 ∧
+         objContent (step sha ph (runOps sha ph s0 ops) (.add di t) now).1.st d = di.content ∧
+         Recorded sha di (resolveTime (runOps sha ph s0 ops) t now) d ∧
+         (step sha ph (runOps sha ph s0 ops) (.add di t) now).1.h.mtime = resolveTime (runOps sha ph s0 ops) t now) := by
+  obtain ⟨st0, h1, I0⟩ := created_C09Inv sha ph be co hin hcap hdoff h
+  refine ⟨st0, h1, ?_⟩
+  intro s0 hi hio hok
+  have I := C09Inv_history sha ph s0 ops I0 hi hio ops.length
+  rw [List.take_length] at I
+  exact C01_add sha ph _ I.wf I.placed di t now hok
 
 /-- **persistence**: an object keeps its descriptor slot, attributes and byte-identical content
     through any later operation that does not delete or edit it (any number of them: induct) -/
